@@ -1,7 +1,9 @@
 """C19 — client endpoint: always ack, dispatch once, reliable sends complete on ack only.
 
 Engine A: symbolic circuit pre-state (ids already seen, next packet id, retry budget) + up to three symbolic
-arrivals / acks / clock advances through the real HippoClientProtocol.datagram_received and Circuit.
+arrivals / acks / clock advances through the real HippoClientProtocol.datagram_received and Circuit.  Acknowledgement
+forms for reliable sends: appended acks on an ordinary packet, PacketAck body, and a PacketAck that itself carries an
+appended ack (one id in the body, one in the tail).
 """
 import asyncio
 from collections import deque
@@ -196,17 +198,18 @@ def ack_and_dedupe(ns: int, s0: int, s1: int, n: int, p0: int, r0: bool, x0: boo
     return all(cn.n == expect_deliveries for cn in counters)
 
 
-@harness(pre=["base in (0, 7, 4294967290)", "1 <= tries <= 3", "0 <= form <= 2", "0 <= rounds <= 3", "base - 1 <= a0 <= base + 1", "a1 == a0 or a1 == a0 + 1", "step == 2 or step == 3"], post="_",
+@harness(pre=["base in (0, 7, 4294967290)", "1 <= tries <= 3", "0 <= form <= 3", "0 <= rounds <= 3", "base - 1 <= a0 <= base + 1", "a1 == a0 or a1 == a0 + 1", "step == 2 or step == 3"], post="_",
          timeout=300,
          note="reliable sends: two send_reliable() calls from packet_id_base in {0, 7, 2^32-6} (the id is a dict key: hashed, hence realized) get strictly increasing ids; a future completes "
-              "exactly when an arrival acknowledges its id (appended acks or PacketAck body; two symbolic ack ids around the issued ids: right, wrong and duplicate ids), "
+              "exactly when an arrival acknowledges its id (appended acks on a chat packet, PacketAck body, or a PacketAck with the first id in its body and the "
+              "second appended to its tail; two symbolic ack ids around the issued ids: right, wrong and duplicate ids - in the mixed form: a pending id only in the tail, only in the body, one in each, the same id in both), "
               "fails exactly when its retry budget (symbolic 1..3) is spent, is resent with the same id + RESENT flag exactly in the "
               "timer rounds (clock step 2 s or 3 s, interval 3 s) where the interval has elapsed, and never afterwards",
          covers=COVERS)
 def reliable_send_completion(base: int, tries: int, form: int, a0: int, a1: int, rounds: int, step: int) -> bool:
     c, rec, _ = fresh()
     c.packet_id_base = base
-    tries, form, rounds = small(tries, 1, 3), small(form, 0, 2), small(rounds, 0, 3)
+    tries, form, rounds = small(tries, 1, 3), small(form, 0, 3), small(rounds, 0, 3)
     m0 = Message("ChatFromViewer", Block("ChatData", fill_missing=True))
     m1 = Message("ChatFromViewer", Block("ChatData", fill_missing=True))
     f0 = c.send_reliable(m0)
@@ -223,6 +226,9 @@ def reliable_send_completion(base: int, tries: int, form: int, a0: int, a1: int,
         arrive("ChatFromSimulator", 7, False, False, acks=(a0, a1))
     elif form == 2:
         arrive("PacketAck", 7, False, False, ack_ids=(a0, a1))
+    elif form == 3:
+        # the tail ack list applies to any packet, a PacketAck included: body acknowledges a0, tail acknowledges a1
+        arrive("PacketAck", 7, False, False, acks=(a1,), ack_ids=(a0,))
     if form != 0:
         done0 = (a0 == id0) or (a1 == id0)
         done1 = (a0 == id1) or (a1 == id1)
@@ -266,11 +272,13 @@ def reliable_send_completion(base: int, tries: int, form: int, a0: int, a1: int,
 
 
 from vlib.harness import shard  # noqa: E402
-for _w in shard(reliable_send_completion, "form", range(3), ["no_ack", "appended_acks", "packetack"], globals()):
+for _w in shard(reliable_send_completion, "form", range(4),
+                ["no_ack", "appended_acks", "packetack", "packetack_plus_appended"], globals()):
     shard(_w, "rounds", range(4), ["0rounds", "1round", "2rounds", "3rounds"], globals())
 
 EVIDENCE = {
-    "bounds": "<=2 ids in the dedupe window initially, <=3 arrivals, 2 reliable sends, <=3 resend rounds, retry budget 1..3; "
+    "bounds": "<=2 ids in the dedupe window initially, <=3 arrivals, 2 reliable sends acknowledged by one arrival in one of three forms "
+              "(appended acks, PacketAck body, PacketAck body + appended ack), <=3 resend rounds, retry budget 1..3; "
               "packet ids and next-id counter are unbounded symbolic integers",
     "outside": "histories longer than the 1000-entry dedupe window; byte codec (snapshot serializer; C01); deserializer "
                "stubbed to hand over the prepared Message",
